@@ -82,7 +82,7 @@ class ServerWorld:
     """Real Server/AsyncServer + real engine.io server and sockets."""
 
     def __init__(self, is_async=False, manager=None, serializer='default',
-                 setup=None, loop=None, **kwargs):
+                 setup=None, loop=None, id_prefix='I', **kwargs):
         self.is_async = is_async
         self.namer = IdNamer()
         self.log = []            # handler / callback invocations
@@ -105,7 +105,7 @@ class ServerWorld:
             self.sio.eio.start_background_task = self._start_task
             self.sio.eio.sleep = lambda seconds=0: None
         self.eio = self.sio.eio
-        self.namer.wrap(self.eio)
+        self.namer.wrap(self.eio, id_prefix)
         if setup:
             setup(self)
 
